@@ -112,6 +112,13 @@ fn cfgs() -> Vec<Cfg> {
                 CMode { name: "B".into(), pats: vec![CPat::new("a", 0), CPat::new("b", 2), la("x", 1, false, "x")], transitions: vec![(1, 0)] },
             ],
         },
+        // modes with disjoint alphabets: the rest of the input may hold no token of the current mode
+        Cfg {
+            modes: vec![
+                CMode { name: "LETTERS".into(), pats: vec![CPat::new("[a-z]+", 0)], transitions: vec![] },
+                CMode { name: "DIGITS".into(), pats: vec![CPat::new("[0-9]+", 1)], transitions: vec![] },
+            ],
+        },
     ]
 }
 
@@ -136,7 +143,7 @@ pub fn run(tier: Tier) -> ! {
     let mut run = Run::new("C12", tier);
     let max_len = if tier == Tier::Quick { 2 } else { 3 };
     let all_scripts = scripts(max_len);
-    let inputs = [("abxab", "bbaxb"), ("xab", "axxb")];
+    let inputs = [("abxab", "bbaxb"), ("xab", "axxb"), ("12 34", "ab 12")];
     let mut total = Acc { samples: Samples::new(6), ..Default::default() };
     let mut fams = vec![];
     for (ci, cfg) in cfgs().into_iter().enumerate() {
